@@ -198,6 +198,7 @@ func main() {
 	r := hlib.Start("C10")
 	if r.IsGen() {
 		writeGenNames(r)
+		writeGenBase(r)
 		return
 	}
 	t0 := time.Now()
